@@ -33,6 +33,8 @@ class C01(AttBase):
                 cases.append(self.case("sweep", cfg, sweep[k:k + 400]))
             for k in range(per):
                 cases.append(self.case("hist", cfg, AC.gen_history(rng, info, rng.choice([8, 20, 60]))))
+            for ops in AC.gen_prepare_cccd(rng, info, 2 if not ctx.thorough else 8):
+                cases.append(self.case("prepcccd", cfg, ops))
         return cases
 
     def search_extra(self, ctx):
